@@ -121,7 +121,12 @@ def main():
                         rec['branch_bad'].append(dict(step=step, branch=bi, what=what, nc=cpair(nc), nw=nw))
 
             check_branches(0)
+            import time as _time
+            t_end = _time.time() + float(req.get('budget_s', 5))
             while True:
+                if _time.time() > t_end:
+                    rec['cut'] = True      # wall-clock budget of the probe, not a property of the tableau
+                    break
                 snap = {}
                 live = [(None, b) for b in tab.open]
                 nb = len(tab)
